@@ -64,12 +64,41 @@ pub fn run_api(_seed: u64, _n: usize, out: &mut Out) {
     let mut id = 0usize;
     for mask in 0..16u32 {
         let members: Vec<(Shape, &str)> = SHAPES.iter().enumerate().filter(|(i, _)| mask >> i & 1 == 1).map(|(_, s)| *s).collect();
-        for rep in 0..2 {
+        for rep in 0..5 {
             let mut list: Vec<(Shape, &str)> = members.clone();
             if rep == 1 {
                 list.extend(members.iter().rev().cloned());
             }
-            let set = ShapeSet::new(list.iter().map(|s| s.0));
+            // every public way of building a set: `new`, `insert` one by one on the default set,
+            // `insert_all`, and `new` of a first member widened by `insert`
+            let set = match rep {
+                0 | 1 => ShapeSet::new(list.iter().map(|s| s.0)),
+                2 => {
+                    let mut s = ShapeSet::default();
+                    for m in &list {
+                        s.insert(m.0);
+                    }
+                    s
+                }
+                3 => {
+                    let mut s = ShapeSet::default();
+                    if members.len() == SHAPES.len() {
+                        s.insert_all();
+                    } else {
+                        for m in list.iter().rev() {
+                            s.insert(m.0);
+                        }
+                    }
+                    s
+                }
+                _ => {
+                    let mut s = ShapeSet::new(list.iter().take(1).map(|m| m.0));
+                    for m in list.iter().skip(1) {
+                        s.insert(m.0);
+                    }
+                    s
+                }
+            };
             for (sh, name) in SHAPES.iter() {
                 let contains = set.contains(sh);
                 let check = match set.check(sh) {
@@ -84,7 +113,7 @@ pub fn run_api(_seed: u64, _n: usize, out: &mut Out) {
         }
     }
     out.stat("shape_sets", 16);
-    out.note("exhaustive", "all 16 shape sets (each built two ways) x 4 shapes");
+    out.note("exhaustive", "all 16 shape sets (each built five ways: new, new with repeats, insert, insert_all, new + insert) x 4 shapes");
     // every `AsShape` implementor on every body form (with and without an explicit discriminant):
     // they must all name the shape the same way
     use darling::util::AsShape;
